@@ -234,6 +234,28 @@ fn seg_case<S: Fl>(ctx: &mut Ctx) {
             let e = dist(s.transformed(&p.xf).sample(p.u), p.xf.transform_point(s.sample(p.u)));
             let tol = k * (m + 1.0) * 16.0 * growth(&[p.u.f()], 2);
             orc.check(e <= tol, "seg.transformed/sample", "generic", || format!("err={:e} tol={:e}", e, tol));
+            // inverse queries agree with evaluation (Props/C10c.lean): x(solve_t_for_x(x)) = x on a
+            // non-vertical segment, parameter 0 on a vertical one; same for y
+            {
+                let xx = s.x(p.u);
+                let tx = s.solve_t_for_x(xx);
+                if s.to.x == s.from.x {
+                    orc.check(tx.f() == 0.0, "seg.solve_t_for_x/vertical", "generic", || format!("t={:e}", tx.f()));
+                } else if xx.f().is_finite() && tx.f().is_finite() && s.x(tx).f().is_finite() {
+                    let e = (s.x(tx).f() - xx.f()).abs();
+                    let tol = k * (m + xx.f().abs()) * (2.0 + tx.f().abs()) * 4.0;
+                    orc.check(e <= tol, "seg.solve_t_for_x/inverse", "generic", || format!("err={:e} tol={:e} t={:e}", e, tol, tx.f()));
+                }
+                let yy = s.y(p.u);
+                let ty = s.solve_t_for_y(yy);
+                if s.to.y == s.from.y {
+                    orc.check(ty.f() == 0.0, "seg.solve_t_for_y/horizontal", "generic", || format!("t={:e}", ty.f()));
+                } else if yy.f().is_finite() && ty.f().is_finite() && s.y(ty).f().is_finite() {
+                    let e = (s.y(ty).f() - yy.f()).abs();
+                    let tol = k * (m + yy.f().abs()) * (2.0 + ty.f().abs()) * 4.0;
+                    orc.check(e <= tol, "seg.solve_t_for_y/inverse", "generic", || format!("err={:e} tol={:e} t={:e}", e, tol, ty.f()));
+                }
+            }
             // lengths add up (t in [0,1])
             let t = p.t.f();
             if (0.0..=1.0).contains(&t) {
